@@ -174,6 +174,13 @@ class StmtMixin(object):
             self.ctx.assume(c)
             self.explorer.assumed_asserts.add("%s:%d" % (fr.fn.name, s.lineno - fr.fn.lineno))
             return
+        rc = self.root_contract
+        if rc is not None and ("AssertionError" in rc.may_raise or "AssertionError" in rc.raises):
+            # the contract allows (or specifies) an AssertionError: a failing assert is a raise, not an obligation
+            ok = c if isinstance(c, bool) else self.ctx.branch(c)
+            if not ok:
+                raise RaiseSig(ExcV("AssertionError"))
+            return
         self.oblige("assert:%s" % ast.unparse(s.test)[:60], c, kind="assert")
 
     def st_Raise(self, s):
@@ -439,9 +446,14 @@ class StmtMixin(object):
         All targets are resolved in the state BEFORE anything is havocked."""
         ctx = self.ctx
         todo = []
+        fresh_refs = []     # new values of reference fields: the caller bounds them by the watermark AFTER the callee
         for it in items:
             node = ast.parse(it, mode="eval").body
-            if isinstance(node, ast.Call) and isinstance(node.func, ast.Name) and node.func.id in ("elems", "contents"):
+            if isinstance(node, ast.Call) and isinstance(node.func, ast.Name) and node.func.id == "allcontents":
+                # allcontents(float): the elements of EVERY list of floats (lengths stay)
+                from .core import parse_type
+                todo.append(("allcontents", parse_type(node.args[0].id)))
+            elif isinstance(node, ast.Call) and isinstance(node.func, ast.Name) and node.func.id in ("elems", "contents"):
                 lst = self.ev(node.args[0], True)
                 todo.append((node.func.id, lst))
             elif isinstance(node, ast.Call) and isinstance(node.func, ast.Name) and node.func.id == "dictof":
@@ -468,6 +480,11 @@ class StmtMixin(object):
                     nl = ctx.fresh("hv$len", z3.IntSort())
                     ctx.assume(nl >= 0)
                     ctx.set_list_len(lst, nl)
+            elif t[0] == "allcontents":
+                key = ctx._el_key(t[1])
+                srt = z3.ArraySort(z3.IntSort(), z3.ArraySort(z3.IntSort(), sort_of(t[1], ctx.num)))
+                ctx.heap_get(key, lambda: srt)
+                ctx.heap[key] = ctx.fresh("hv$allcontents", srt)
             elif t[0] == "dict":
                 self.dict_havoc(t[1])
             elif t[0] == "all":
@@ -480,4 +497,8 @@ class StmtMixin(object):
                 ctx.heap[key] = ctx.fresh("hv$" + t[1], ctx.heap[key].sort())
             else:
                 _, obj, attr, fty = t
-                ctx.write_field(obj, attr, fty, ctx.fresh_of_type("hv$" + attr, fty))
+                nv = ctx.fresh_of_type("hv$" + attr, fty)
+                ctx.write_field(obj, attr, fty, nv)
+                if isinstance(nv, RefV):
+                    fresh_refs.append(nv)
+        return fresh_refs
